@@ -6,7 +6,7 @@ from typing import Dict, List, Optional, Tuple
 
 from ..canon import Cmp, Poly, to_cmp, to_poly
 from ..defuse import is_sym, key, norm_chains, show, strip_norm
-from ..engine import Hole, own_walk, template_parts
+from ..engine import return_exprs, Hole, own_walk, template_parts
 from ..model import AnalysisInconclusive
 from .common import attr_of_name, call_fname, is_name, stmt_key
 
@@ -60,6 +60,9 @@ def _classify(labname: str):
                 return _sym("r[" + _part(e.args[0]) + "]")
             if attr_of_name(recv, labname, "column_ids"):
                 return _sym("c[" + _part(e.args[0]) + "]")
+            # "".join(labware.row_ids).index(row): a *substring* search in the joined row letters
+            if isinstance(recv, ast.Call) and call_fname(recv) == "join" and len(recv.args) == 1 and attr_of_name(recv.args[0], labname, "row_ids"):
+                return _sym("r[" + _part(e.args[0]) + " as substring of the joined row letters]")
         if attr_of_name(e, labname, "n_rows"):
             return _sym("n_rows")
         if attr_of_name(e, labname, "n_columns"):
@@ -106,6 +109,24 @@ EXPECTED = {
 }
 
 
+def _n_rows_counts_letters(ctx) -> bool:
+    """Labware.n_rows is len(self.row_ids), and row_ids holds rows (plates) / virtual_rows (troughs) letters."""
+    lab = ctx.prog.require_class("Labware", "C08.formula")
+    f = lab.methods.get("n_rows")
+    if f is None:
+        return False
+    rets = [r for r in return_exprs(f)]
+    if len(rets) != 1 or not (isinstance(rets[0], ast.Call) and call_fname(rets[0]) == "len" and rets[0].args and attr_of_name(rets[0].args[0], f.params[0], "row_ids")):
+        return False
+    from . import init_model
+
+    for (rows, columns, vr), got in init_model.tables(ctx):
+        w_ = got.get("_wells")
+        if not isinstance(w_, list) or len(w_) != (rows if vr is None else vr):
+            return False
+    return True
+
+
 def formulas(ctx, rule: str = "C08.formula") -> None:
     n = 0
     for pkg in ("evotools", "fluenttools"):
@@ -130,6 +151,21 @@ def formulas(ctx, rule: str = "C08.formula") -> None:
                                 "(Labware(..., virtual_rows=n) is a trough too), not by its class", where=w)
                 continue
             if trough is None:
+                # one formula for plates and troughs: on the EVO that is 1 + c*n_rows + r, because n_rows counts the row letters -
+                # the virtual rows of a trough included (Labware.n_rows is len(row_ids); row_ids are the first rows / virtual_rows
+                # letters: checked on the geometry table of init_model)
+                p0 = to_poly(val, opaque)
+                if any("substring" in p0.names.get(s_, "") for s_ in p0.symbols()):
+                    n += 1
+                    ctx.rep.refuted(rule, c, f"{pkg} position `{p0.pretty()[:110]}` looks the row up by substring search in the joined row letters: an ID whose row is a run of "
+                                    "consecutive letters ('AB01', 'BCD02') that does not exist in the labware is numbered like its first letter instead of being rejected", where=w, canon=p0.pretty())
+                    seen |= {True, False}
+                    continue
+                if pkg == "evotools" and p0 == EXPECTED[("evotools", False)][1]() and _n_rows_counts_letters(ctx):
+                    n += 2
+                    seen |= {True, False}
+                    ctx.rep.holds(rule, c, f"canonical form {p0.pretty()} for plates and troughs alike (n_rows = number of row letters, virtual rows included)", where=w, canon=p0.pretty())
+                    continue
                 ctx.rep.inconclusive(rule, c, "return is not guarded by the trough test (virtual_rows is not None / is_trough)", where=w)
                 continue
             n += 1
@@ -186,6 +222,9 @@ def trough_predicate(ctx, rule: str = "C08.trough-predicate") -> None:
         elif any(isinstance(x, ast.Attribute) and x.attr in ("virtual_rows", "n_rows", "shape", "_volumes", "row_ids", "wells", "_wells") for x in ast.walk(atom)) or isinstance(atom, ast.Constant):
             ctx.rep.refuted(rule, c, f"is_trough is `{show(raw)[:60]}`: a labware counts as a trough exactly when virtual rows were given (also a single one); with this definition "
                             "a trough with virtual_rows=1 is numbered and partitioned like a plate", where=w)
+        elif any(isinstance(x, ast.Call) and call_fname(x) in ("isinstance", "issubclass", "type") for x in ast.walk(atom)) or any(isinstance(x, ast.Attribute) and x.attr == "__class__" for x in ast.walk(atom)):
+            ctx.rep.refuted(rule, c, f"is_trough is `{show(raw)[:60]}`: it follows the class of the object, not whether virtual rows were given - Labware(..., rows=1, virtual_rows=n) is a trough too "
+                            "and would be numbered (Fluent) and partitioned like a plate", where=w)
         else:
             ctx.rep.inconclusive(rule, c, f"cannot relate `{show(raw)[:60]}` to `virtual_rows is not None`", where=w)
 
@@ -658,6 +697,9 @@ def unknown_well(ctx, rule: str = "C08.unknown-well") -> None:
     from . import c13
 
     ctx.reuse(rule, c13.selection_array)
+    from .common import class_state_rule
+
+    ctx.guard("C08.instance-state", class_state_rule, "C08.instance-state", ("Labware", "Trough"), "its wells / indices / positions tables")
     for kind in ("add", "remove"):
         f = ctx.prog.require_func(f"Labware.{kind}", rule)
         fv = ctx.fv(f)
